@@ -1,8 +1,8 @@
 SPECIFICATION TraceSpec
 CONSTANTS
   Deviations = {}
-  LetterChars = {97, 98, 102, 103, 105, 107, 108, 109, 115, 116, 120, 121, 122}
-  DigitChars = {48, 49, 50, 51, 52, 53, 54, 55, 56, 57}
+  LetterChars <- TraceLetters
+  DigitChars <- TraceDigits
 INVARIANT ShapeIsEval4T
 POSTCONDITION TraceAccepted
 CHECK_DEADLOCK FALSE
